@@ -93,6 +93,7 @@ pub fn natives() -> Vec<Spec> {
 		out.push(Spec::Native(Native::OwnedDescRef(k, 3)));
 	}
 	out.push(Spec::Native(Native::VecsFromRef));
+	out.push(Spec::Native(Native::VecsOwnedBoxed(0)));
 	out.push(Spec::Native(Native::BoxedTupVecs(vec![1, 0], vec![2, 0])));
 	out.push(Spec::Native(Native::BoxedTupVecs(vec![], vec![])));
 	out.push(Spec::Native(Native::BoxedTupRRP(1, 0, 0)));
